@@ -36,6 +36,18 @@ def cases(rng, tier):
         a = gen.rand_ta_sized(rng, 3, 6, leafbias=0.5, pfinal=0.5)
         for q in sorted(a.states()): a.rules.append((rng.choice([0, 1]), q, ()))
         cs.append(("cand " + a.fmt(), "targeted"))
+    for _ in range(300 if tier == "quick" else 5000):   # rules of arity >= 3 with the same child at non-adjacent positions, needed by every accepting derivation
+        n = rng.randint(2, 4); st = list(range(n))
+        rules = [(rng.choice([0, 1]), q, ()) for q in st if rng.random() < 0.7] or [(0, 0, ())]
+        top = n
+        x, y = rng.choice(st), rng.choice(st)
+        shape = rng.choice([(x, y, x), (x, y, y, x), (y, x, y), (x, x, y, x), (x, y, x, y)])
+        rules.append((4 if len(shape) == 3 else 8, top, shape))
+        for _ in range(rng.randint(0, 3)):
+            f, ar = rng.choice([(2, 1), (3, 2), (4, 3)])
+            rules.append((f, rng.choice(st), tuple(rng.choice(st) for _ in range(ar))))
+        rng.shuffle(rules)
+        cs.append(("cand " + gen.TA([top], rules).fmt(), "targeted"))
     for _ in range(1500 if tier == "quick" else 20000):   # histories: the call repeated on objects derived from earlier operands / results
         a = gen.rand_ta_sized(rng, 5, 9, sigma=rng.choice([gen.SIGMA, gen.SIGMA_U]), leafbias=rng.choice([0.2, 0.4]), pfinal=rng.choice([0.3, 0.8]))
         if rng.random() < 0.3:
